@@ -508,3 +508,17 @@ mod tests {
         quickcheck(prop as fn(_))
     }
 }
+
+/// Verification hooks (only with `--cfg libp2p_verif`): `Message::encode`/`decode` are private.
+#[cfg(libp2p_verif)]
+pub(crate) mod verif_hooks {
+    use super::*;
+
+    pub(crate) fn encode(m: &Message, dest: &mut BytesMut) {
+        m.encode(dest)
+    }
+
+    pub(crate) fn decode(msg: Bytes) -> Result<Message, ProtocolError> {
+        Message::decode(msg)
+    }
+}
